@@ -200,6 +200,13 @@ fn is_atomic(e: &Ex) -> bool {
     }
 }
 
+/// a logical connective without its own outer parentheses
+fn bare(e: &Ex) -> String {
+    let r = render(e);
+    debug_assert!(r.starts_with('(') && r.ends_with(')'), "{}", r);
+    r[1..r.len() - 1].to_string()
+}
+
 /// render so that the result can stand anywhere a single operand can
 pub fn atom(e: &Ex) -> String {
     if is_atomic(e) {
@@ -255,6 +262,23 @@ pub fn render_lv(l: &Lv, nested: bool) -> String {
         Lv::Or(a, b) => format!("({} or {})", render_lv(a, true), render_lv(b, true)),
         Lv::And(a, b) => format!("({} and {})", render_lv(a, true), render_lv(b, true)),
         Lv::Lit(e) => atom(e),
+        // a builtin operator with two operands is written infix, the way such patterns are used
+        // (`h .+ t`, `n + 1`, `a / b`); prepend chains nested to the right and append chains nested
+        // to the left are written without inner parentheses (`a .+ b .+ t`, `xs +. y +. z`), so the
+        // operators' associativity is part of what is checked
+        Lv::Destructure(f, args) if args.len() == 2 && matches!(&**f, Ex::Var(n) if !n.chars().next().map_or(false, |c| c.is_ascii_uppercase())) => {
+            let op = match &**f {
+                Ex::Var(n) => n.clone(),
+                _ => unreachable!(),
+            };
+            let same_op = |l: &Lv| matches!(l, Lv::Destructure(g, a2) if a2.len() == 2 && **g == Ex::Var(op.clone()));
+            let strip = |t: String| t[1..t.len() - 1].to_string();
+            let l = render_lv(&args[0], true);
+            let r = render_lv(&args[1], true);
+            let l = if op == "+." && same_op(&args[0]) { strip(l) } else { l };
+            let r = if op == ".+" && same_op(&args[1]) { strip(r) } else { r };
+            format!("({} {} {})", l, op, r)
+        }
         Lv::Destructure(f, args) => format!(
             "{}({})",
             atom(f),
@@ -388,9 +412,19 @@ pub fn render(e: &Ex) -> String {
                 .collect::<Vec<_>>()
                 .join(", ")
         ),
-        Ex::And(a, b) => format!("({} and {})", atom(a), atom(b)),
-        Ex::Or(a, b) => format!("({} or {})", atom(a), atom(b)),
-        Ex::Coalesce(a, b) => format!("({} coalesce {})", atom(a), atom(b)),
+        // `and` binds tighter than `or` and `coalesce`, which share one level and associate to the
+        // left: operands that the grammar groups the same way by itself are written without their
+        // own parentheses, so that the documented precedence is part of what is checked
+        Ex::And(a, b) => {
+            let l = if matches!(&**a, Ex::And(..)) { bare(a) } else { atom(a) };
+            format!("({} and {})", l, atom(b))
+        }
+        Ex::Or(a, b) | Ex::Coalesce(a, b) => {
+            let word = if matches!(e, Ex::Or(..)) { "or" } else { "coalesce" };
+            let l = if matches!(&**a, Ex::And(..) | Ex::Or(..) | Ex::Coalesce(..)) { bare(a) } else { atom(a) };
+            let r = if matches!(&**b, Ex::And(..)) { bare(b) } else { atom(b) };
+            format!("({} {} {})", l, word, r)
+        }
         Ex::Seq(xs, trailing) => {
             let body = xs.iter().map(render_in_seq).collect::<Vec<_>>().join("; ");
             if *trailing {
